@@ -44,7 +44,31 @@ def len_formula(ctx, prog):
     pat = ("bin", "Add", ("bin", "Add", ("bin", "Add",
            ("call", "::len", [("index", ("named", "block_size::BLOCK_SIZES_STR"), ("path", "self", ("log_blocksize",)))]),
            ("path", "self", ("len_blockhash1",))), ("path", "self", ("len_blockhash2",))), ("v", 2))
-    ctx.ob("SA-FORMULA", "len_in_str() = BLOCK_SIZES_STR[log_blocksize].len() + len_blockhash1 + len_blockhash2 + 2", match(e, pat), show(e)[:200], f.loc())
+    ok = match(e, pat)
+    if not ok:
+        # the same sum with its terms in another order / the 2 split into 1 + 1 (usize additions of a few small values: any association)
+        terms = {}
+        const = [0]
+
+        def flat(x):
+            x = strip(x)
+            while x[0] == "cast":
+                x = strip(x[1])
+            if x[0] == "bin" and x[1] == "Add":
+                flat(x[2])
+                flat(x[3])
+            elif x[0] == "agg" and x[1] == "Tuple" and len(x[2]) == 2:   # checked add in debug builds
+                flat(x[2][0])
+            elif x[0] == "const" and isinstance(x[1], int):
+                const[0] += x[1]
+            else:
+                k = re.sub(r"::<[^()\[\]]*>\(", "(", canon(x))
+                terms[k] = terms.get(k, 0) + 1
+        flat(e)
+        want = {"core::str::<impl str>::len(internals::hash::block::block_size::BLOCK_SIZES_STR[(param:self.log_blocksize as usize)])": 1,
+                "param:self.len_blockhash1": 1, "param:self.len_blockhash2": 1}
+        ok = terms == want and const[0] == 2
+    ctx.ob("SA-FORMULA", "len_in_str() = BLOCK_SIZES_STR[log_blocksize].len() + len_blockhash1 + len_blockhash2 + 2", ok, show(e)[:200], f.loc())
     # the writer takes the block-size text from the same table entry
     g = prog.fn("FuzzyHashData::<S1, S2, NORM>::store_into_bytes")
     sy = Sym(g)
@@ -129,6 +153,10 @@ def one_formatter(ctx, prog):
             why = "buffer = %s" % show(v)[:120]
             # result consumed by unwrap and the string built from the same vec
             fin = [(bi, u) for bi, u in f.calls() if u["dest"]["l"] == 0]
+            if not fin:
+                # the last step sits in a helper that was written out here (inliner): the value returned is still one call result
+                r0 = strip(sy.local(0))
+                fin = [r0] if r0[0] == "call" and len(f.defs.get(0, [])) == 1 else []
             ok = ok and len(fin) == 1
         ctx.ob(R, "to_string: allocates exactly len_in_str() bytes and fills them with store_into_bytes(..).unwrap()", ok, why, f.loc())
         g = [x for x in prog.fns if x.path.endswith("for alloc::string::String>::from") and "FuzzyHashData" in x.path]
